@@ -48,6 +48,7 @@ class Harness:
         N, L = self.N, self.L
         kind = KINDS[c.choose(len(KINDS), 'kind')]
         m = SymMgr(N, 0, L, with_cache=True)
+        m.decl = 'choose'
         m.assume_pre()
         bdd = m.install(self.B)
         st0, st, den = m.st0, m.st, m.den
